@@ -59,7 +59,7 @@ ASSUMPTIONS = [
     'non-constant rates, non-unit attitudes, representation=rotmat/angles and the MARG/accelerometer-present branches '
     'are out of scope',
 ]
-REQUIRED_CLASSES = ['closed:chain', 'closed:batch(Dt)', 'closed:batch(frequency)', 'closed:total-angle>2pi',
+REQUIRED_CLASSES = ['dr:dt-types', 'dr:batch-no-q0', 'closed:chain', 'closed:batch(Dt)', 'closed:batch(frequency)', 'closed:total-angle>2pi',
                     'closed:q0-negative-scalar', 'closed:theta>=0.1', 'closed:theta<=1e-4',
                     'series:order0', 'series:order1', 'series:order2', 'series:order3', 'series:order4', 'series:order5',
                     'series:order6', 'series:batch', 'dr:Madgwick', 'dr:Mahony', 'dr:AQUA', 'dr:EKF.f', 'dr:ROLEQ',
@@ -327,8 +327,44 @@ def job_dr(ctx, iq, ia):
                     dd = ri.sdist(got, ri.first_order(q0, w, 0.02)) if got.shape == (4,) else np.inf
                     ctx.expect(dd <= TOL_DR, f'{fname}.updateIMU without dt uses the configured Dt, also after a call with an explicit dt', key, dd, 0.0, TOL_DR)
                     ctx.cls('dr:dt-history')
+            # the step size handed over in other numeric types (timestamps differences commonly are numpy scalars of some width)
+            if rate > 0.0:
+                for cn, conv in (('numpy.float64', np.float64), ('numpy.float32', np.float32), ('0-d array', lambda x: np.array(x)), ('numpy.longdouble', np.longdouble),
+                                 ('0-d float32 array', lambda x: np.array(x, np.float32))):
+                    dtc = conv(dt)
+                    for fname, call, fn in steppers[:3]:
+                        try:
+                            got = fn(q0.copy(), w.copy(), dtc)
+                        except TypeError:
+                            ctx.outcome(('dt-type-refused', cn))
+                            continue
+                        dd = ri.sdist(np.asarray(got, float), ri.first_order(q0, w, float(dtc))) if np.shape(got) == (4,) else np.inf
+                        ctx.expect(dd <= 1e-9, f'{call}: the step is the one for the given dt, whatever numeric type carries it', f'{key} dt-type={cn}', dd, 0.0, 1e-9)
+                    ctx.cls('dr:dt-types')
             # batch constructors, null accelerometer, explicit Dt and explicit frequency
             G = np.tile(w, (NB, 1)); Zb = np.zeros((NB, 3))
+            # ... without q0: a record that starts with a null accelerometer sample starts from the identity, whatever this process estimated before
+            if rate > 0.0:
+                decoy_acc = np.tile(np.array([0.4, -0.3, 0.85]) * 9.81, (NB, 1))
+                for fname, is_conj, mk in (('Madgwick', False, Madgwick), ('Mahony', False, Mahony), ('AQUA', True, AQUA)):
+                    try:
+                        mk(gyr=G.copy(), acc=decoy_acc.copy())            # an unrelated, ordinary recording processed first
+                        B = _arr(mk(gyr=G.copy(), acc=Zb.copy(), Dt=dt).Q)
+                    except ValueError:
+                        ctx.outcome(('no-q0-refused', fname))      # AQUA refuses a record without usable first accelerometer sample: not judged
+                        continue
+                    except Exception as ex:
+                        ctx.fail(f'{fname}(gyr, acc=0, Dt) without q0 raises', key, f'{type(ex).__name__}: {ex}'[:120], 'rows')
+                        continue
+                    if B.shape == (NB, 4) and is_conj:
+                        B = B * np.array([1.0, -1.0, -1.0, -1.0])
+                    R = np.zeros((NB, 4)); R[0] = [1.0, 0.0, 0.0, 0.0]
+                    ok = B.shape == (NB, 4) and B.dtype.kind == 'f' and bool(np.all(np.isfinite(B)))
+                    for i in range(1, NB):
+                        R[i] = ri.first_order(B[i - 1] if ok else R[i - 1], w, dt)
+                    _judge_rows(ctx, _rowdist(B, R), np.full(NB, TOL_DR),
+                                f'{fname}(gyr, acc=0, Dt).Q without q0 starts at the identity and advances by the normalised first-order step', key, f'dr.batch-noq0.{fname}')
+                    ctx.cls('dr:batch-no-q0')
             builders = [
                 ('Madgwick', False, lambda **kw: Madgwick(gyr=G.copy(), acc=Zb.copy(), q0=q0.copy(), **kw).Q),
                 ('Mahony', False, lambda **kw: Mahony(gyr=G.copy(), acc=Zb.copy(), q0=q0.copy(), **kw).Q),
